@@ -55,7 +55,9 @@ impl MM {
                     if items.len() == 1 && matches!(items[0].item_type, ItemType::Rule) {
                         items[0].pattern.clone()
                     } else {
-                        format!("{:?}", items)
+                        // the spec's spelling of a multi-entry list: t:*|r:r*
+                        items.iter().map(|it| format!("{}:{}", match it.item_type { ItemType::Template => "t", ItemType::Fact => "f", ItemType::All => "a", ItemType::Rule => "r" }, it.pattern))
+                            .collect::<Vec<_>>().join("|")
                     }
                 }
             };
@@ -139,6 +141,15 @@ impl Model for MM {
                 let e = match s("e").as_str() {
                     "all" => ExportList::All,
                     "none" => ExportList::None,
+                    p if p.contains(':') => ExportList::Specific(
+                        p.split('|')
+                            .map(|ent| {
+                                let (ty, pat) = ent.split_once(':').unwrap();
+                                let item_type = match ty { "t" => ItemType::Template, "f" => ItemType::Fact, "a" => ItemType::All, _ => ItemType::Rule };
+                                ExportItem { item_type, pattern: pat.to_string() }
+                            })
+                            .collect(),
+                    ),
                     p => ExportList::Specific(vec![ExportItem { item_type: ItemType::Rule, pattern: p.to_string() }]),
                 };
                 self.m.export_all_from(&s("m"), e).is_ok()
